@@ -107,6 +107,28 @@ def r_C29(root):
             okf = isinstance(hd, str) and isinstance(tr, str) and hd.lstrip().startswith("@startuml") and tr.rstrip().endswith("@enduml") and hd.count("@startuml") == 1 and (("skinparam linetype %s" % lt) in hd if lt else "skinparam linetype" not in hd)
             ob("C29", "C29.g", E, "PlantUmlRenderer.get_header / get_trailer", "frame with linetype=%r" % lt, okf)
             if not okf: out.append(Finding("C29", "C29.g", E, "PlantUmlRenderer.get_header", "linetype=%r" % lt, "with linetype=%r the PlantUML output starts with %r and ends with %r; documented: @startuml first, @enduml last, the linetype line in between when configured" % (lt, hd[:40] if isinstance(hd, str) else hd, tr[-20:] if isinstance(tr, str) else tr)))
+        # the legend of match rules: opened and closed once, one row per match rule - also for a rule without details to show
+        for details in ({"Kw": "a|b", "Alias": ""}, {"Alias": ""}, {"Kw": "a|b"}):
+            inst += 1
+            fns_ = {f.name: f for f in t.body if isinstance(f, ast.FunctionDef) and f.name != "dot_match_str"}
+            envp = {"__classdefs__": xcds_, "__functions__": fns_, "__module__": t, "__maxdepth__": 20, "dot_match_str": _pg.PyFn(lambda cls_, mr_=None, _d=details: _d[cls_[".name"]])}
+            try:
+                rnd = _pg.instantiate("PlantUmlRenderer", [], {}, envp)
+                from sa.exprs import HS as _HS
+                mr_ = [_HS({".name": n_, ".__name__": n_, ".kind": "cls"}) for n_ in details]
+                cur = rnd.get(".match_rules")
+                rnd[".match_rules"] = set(mr_) if isinstance(cur, set) else (mr_ if not isinstance(cur, dict) else {n_[".name"]: n_ for n_ in mr_})
+                tr = _pg.call_method_of(rnd, *_pg.find_method(xcds_, "PlantUmlRenderer", "get_trailer"), [], {}, envp)
+            except _pg.Raised as r_: tr = "raises " + r_.cls
+            except _pg.Unsupported as u_: raise AnalysisError("PlantUmlRenderer.get_trailer: outside the evaluated subset: %s" % u_)
+            lines_ = tr.split("\n") if isinstance(tr, str) else []
+            def rows_(n_): return sum(1 for l_ in lines_ if l_.strip().startswith("| %s |" % n_))
+            nleg = lines_.count("legend")
+            okl = isinstance(tr, str) and not tr.startswith("raises") and nleg == lines_.count("end legend") <= 1 and (nleg == 0 or lines_.index("legend") < lines_.index("end legend")) and tr.rstrip().endswith("@enduml") \
+                  and all((rows_(n_) == 1) if d_ else (rows_(n_) <= 1) for n_, d_ in details.items()) \
+                  and all(nleg == 1 and lines_.index("legend") < i_ < lines_.index("end legend") for i_, l_ in enumerate(lines_) if l_.strip().startswith("| "))
+            ob("C29", "C29.g", E, "PlantUmlRenderer.get_trailer", "legend for the match rules %s" % sorted(details), okl)
+            if not okl: out.append(Finding("C29", "C29.g", E, "PlantUmlRenderer.get_trailer", "match rules %s" % {k_: v_ or "(no details)" for k_, v_ in details.items()}, "for a meta-model with the match rules %s (details: %s) the PlantUML trailer is %r; documented: at most one legend block, opened with 'legend' and closed with 'end legend', every table row inside it, one row for every match rule that has details, then @enduml" % (sorted(details), details, tr[:200] if isinstance(tr, str) else tr), witness="Alias: Other; Other: 'x'|'y';  -> textx generate --target plantuml"))
     # C29.b escape table, by evaluation (sa/pyeval.py) of dot_escape on sample texts: every character that is special inside a
     # record label comes out backslash-escaped exactly once (a newline as \n), other characters unchanged
     from sa import pyeval as _pe
